@@ -20,6 +20,8 @@ SESSIONS = [
     dict(name="one symbol + data symbol, 5m, 11 minutes", symbols=("AAA-USDT",), data_symbols=("BBB-USDT",), minutes=11, timeframe="5m"),
     dict(name="one symbol, 5m, 1 minute", symbols=("AAA-USDT",), minutes=1, timeframe="5m"),
     dict(name="one symbol, 15m, 31 minutes", symbols=("AAA-USDT",), minutes=31, timeframe="15m"),
+    dict(name="two symbols, 3m and 5m, 16 minutes", symbols=("AAA-USDT", "BBB-USDT"), minutes=16, timeframe=("3m", "5m")),
+    dict(name="one symbol 15m + data symbol 5m, 31 minutes", symbols=("AAA-USDT",), data_symbols=("BBB-USDT",), minutes=31, timeframe=("15m", "5m")),
 ]
 SIMS = ("_step_simulator", "_skip_simulator")
 _cache: Dict[str, Dict] = {}
@@ -35,6 +37,19 @@ def minutes_of(tf: str) -> int:
 
 # the fast simulator's chunking for every session length 1..13 and chunk lengths 1 / 3 / 5 (one symbol: the chunk is the route timeframe)
 PARTITION_SESSIONS = [dict(name=f"one symbol, {tf}, {n} minute(s)", symbols=("AAA-USDT",), minutes=n, timeframe=tf) for tf in ("1m", "3m", "5m") for n in range(1, 14)]
+
+
+def tf_of(cfg, sym: str) -> str:
+    tf = cfg["timeframe"]
+    if isinstance(tf, str):
+        return tf
+    allsyms = tuple(cfg["symbols"]) + tuple(cfg.get("data_symbols", ()))
+    return tf[allsyms.index(sym)]
+
+
+def all_tfs(cfg):
+    tf = cfg["timeframe"]
+    return sorted({t for t in ([tf] if isinstance(tf, str) else tf) if t != "1m"}, key=minutes_of)
 
 
 def tag(sym: str) -> str:
@@ -160,8 +175,8 @@ def check_fed_candles(repo, rep, rid, cfgs=None, sims=SIMS):
 
 def expected_protocol(cfg, end) -> List[Tuple]:
     out = []
-    c = minutes_of(cfg["timeframe"])
     for s in cfg["symbols"]:
+        c = minutes_of(tf_of(cfg, s))
         if (end + 1) % c == 0:
             out.append(("exec", s))
         out.append(("prune", s))
@@ -251,16 +266,14 @@ def check_generation(repo, rep, rid, cfgs=None, sims=SIMS):
     for (name, sim), (cfg, ses) in sessions(repo, cfgs, sims).items():
         if (name, sim) in skip:
             continue
-        tf = cfg["timeframe"]
-        if tf == "1m":
+        tfs = all_tfs(cfg)
+        if not tfs:
             rep.instance(rid, f"{sim}|{name}")
             continue
-        c = minutes_of(tf)
         syms = tuple(cfg["symbols"]) + tuple(cfg.get("data_symbols", ()))
         matched = {s: -1 for s in syms}
         gens = {}
         bad = None
-        execs_after = {}
         for e in ses.events:
             if e[0] == "match":
                 matched[e[1]] = e[2] + e[3] - 1
@@ -271,29 +284,32 @@ def check_generation(repo, rep, rid, cfgs=None, sims=SIMS):
                     bad = f"a {gtf} candle is generated from {[(o[0], o[1]) if o else None for o in os_]}: not consecutive 1m candles of one symbol"
                     break
                 sy = next(s for s in syms if tag(s) == os_[0][0])
-                if gtf != tf or n != c or first % c != 0:
-                    bad = f"a {gtf} candle of {sy} is generated from minutes {first}..{first + n - 1}: not an aligned window of {c} minutes"
+                if gtf not in tfs or n != minutes_of(gtf) or first % minutes_of(gtf) != 0:
+                    bad = f"a {gtf} candle of {sy} is generated from minutes {first}..{first + n - 1}: not an aligned window of that timeframe (session timeframes {tfs})"
                     break
                 if first + n - 1 > matched[sy]:
                     bad = f"a {gtf} candle of {sy} is generated from minutes up to {first + n - 1} although only minute {matched[sy]} has been matched (look-ahead)"
                     break
-                gens.setdefault((sy, first), 0)
-                gens[(sy, first)] += 1
+                gens[(sy, gtf, first)] = gens.get((sy, gtf, first), 0) + 1
             elif e[0] == "exec":
-                # every window that closed so far must have been generated for every symbol
+                # every window (of every timeframe of the session, for every symbol) that closed so far must have been generated
                 done = min(matched.values())
                 for sy in syms:
-                    for w in range(0, done + 1 - (c - 1), c):
-                        if gens.get((sy, w), 0) != 1:
-                            bad = f"the strategy of {e[1]} executes after minute {done} although the {tf} candle of {sy} starting at minute {w} has been generated {gens.get((sy, w), 0)} times"
+                    for tf in tfs:
+                        c = minutes_of(tf)
+                        for w in range(0, done + 1 - (c - 1), c):
+                            if gens.get((sy, tf, w), 0) != 1:
+                                bad = f"the strategy of {e[1]} executes after minute {done} although the {tf} candle of {sy} starting at minute {w} has been generated {gens.get((sy, tf, w), 0)} times"
                 if bad:
                     break
         if not bad:
             for sy in syms:
-                for w in range(0, cfg["minutes"] - c + 1, c):
-                    if gens.get((sy, w), 0) != 1:
-                        bad = f"the {tf} candle of {sy} starting at minute {w} is generated {gens.get((sy, w), 0)} times in the session"
-            extra = [k for k in gens if k[1] + c > cfg["minutes"]]
+                for tf in tfs:
+                    c = minutes_of(tf)
+                    for w in range(0, cfg["minutes"] - c + 1, c):
+                        if gens.get((sy, tf, w), 0) != 1:
+                            bad = f"the {tf} candle of {sy} starting at minute {w} is generated {gens.get((sy, tf, w), 0)} times in the session"
+            extra = [k for k in gens if k[2] + minutes_of(k[1]) > cfg["minutes"]]
             if extra:
                 bad = f"candles are generated for windows that do not complete inside the session: {extra}"
         if bad:
